@@ -1,0 +1,29 @@
+//go:build verif
+
+// Contracts for package internal/emap (comment-only; read by /verif/cmd/govc).
+package emap
+
+// ASSUMED interface of the expiry map as a set of item ids (ghost map gmap("seen", e)); the map itself
+// (buckets + a heap of shared mutable entries) is outside the generator's pointer model (C25 not claimed).
+//@ type github.com/ava-labs/avalanchego/utils/set.Bits opaque
+//@ func Item.GetID
+//@   pure
+//@   opt uf item_id
+//@ func Item.GetExpiry
+//@   pure
+//@   opt uf item_expiry
+//@ func (*EMap).SetMin
+//@   trusted
+//@   noframe
+//@   modifies gmap("seen", e)[]
+//@   ensures forall q string :: has(gmap("seen", e), q) ==> old(has(gmap("seen", e), q))
+//@ func (*EMap).Add
+//@   trusted
+//@   noframe
+//@   modifies gmap("seen", e)[]
+//@   ensures forall q string :: old(has(gmap("seen", e), q)) ==> has(gmap("seen", e), q)
+//@   ensures forall j int :: 0 <= j && j < len(items) && Item.GetExpiry(items[j]) != 0 ==> has(gmap("seen", e), str(Item.GetID(items[j])))
+//@ func (*EMap).Contains
+//@   trusted
+//@   noframe
+//@   ensures forall j int :: bit(marker, j) ==> bit(result, j)
